@@ -248,6 +248,8 @@ def run(ctx: Ctx) -> int:
             srcname = "query.cxx" if case.backend == "atlas" else "Analyzer.cc"
             diags = [l for l in r.stderr.splitlines() if srcname in l and "warning:" in l and any(k in l for k in ("uninitialized", "shadows", "return-type", "does not return"))]
             out["diags"] = diags[:5]
+            out["dialect"] = cxx.dialect_check(model, jobdir)
+            out["dialect_ran"] = True
             evf = jobdir / "ev.txt"
             evf.write_text(edm.serialize_events(model.schema, case.events))
             out["run"] = cxx.run_job(b["exe"], str(evf), len(case.events))
@@ -285,6 +287,9 @@ def run(ctx: Ctx) -> int:
         elif r.get("audit"):
             kind = "audit"
             why = "identifier monitor: " + r["audit"]
+        elif r.get("dialect"):
+            kind = "dialect"
+            why = f"accepted by clang++ -std=c++17 but not by g++ -std={cxx.TARGET_STD[c.backend]} (the language level of the release the {c.backend} dataset runs): {r['dialect']}"
         elif r.get("diags"):
             minted_pat = re.compile(r"'(i_obj\d+|aggResult\d+|is_first\d+|bool_op\d+|if_else_result\d+|ntuple\d+|begin\d+|end\d+|r_obj\d+|_\w+\d+|\w+\d+)'")
             mine = [d for d in r["diags"] if minted_pat.search(d) and "uninitialized" not in d]
@@ -301,6 +306,8 @@ def run(ctx: Ctx) -> int:
             why = f"valgrind: {r['valgrind']['err'][0]}"
         if "valgrind" in r:
             ctx.count("jobs_under_valgrind")
+        if r.get("dialect_ran"):
+            ctx.count("jobs_also_compiled_with_gcc_at_target_language_level")
         if "audit_error" in r:
             ctx.notes.append("audit error: " + r["audit_error"])
         if why:
